@@ -11,6 +11,7 @@ every method called on the source stream is supported by every kind of stream th
 Not decided: file-system behaviour.
 """
 import ast
+from ..terms import crepr
 
 from ..loader import AnalysisError
 from ..dataflow import key, varkey, unawait
@@ -241,7 +242,7 @@ def _txinfo(ctx, R, T):
     ok = rt[0] == "cmp" and len(rt) == 4 and rt[2] in (("c", "Lt"), ("c", "LtE")) and rt[3] == ("attr", ("p", "SELF"), "_maxdata")
     if ok:
         summ = _flatten_sum(rt[1])
-        ok = sorted(summ, key=repr) == sorted([("attr", ("p", "SELF"), "send_idx"), ("attr", ("p", "SELF"), "recv_message_size"), ("p", "N")], key=repr)
+        ok = sorted(summ, key=crepr) == sorted([("attr", ("p", "SELF"), "send_idx"), ("attr", ("p", "SELF"), "recv_message_size"), ("p", "N")], key=crepr)
     R.check(ok, "BUF-send", ca.qualname, "room predicate: send_idx + record_size + n < maxdata", "the room predicate is %s; expected send_idx + recv_message_size + data_len < _maxdata" % show(rt), ca.loc())
 
 
